@@ -6,7 +6,7 @@ from . import *
 RUNS = os.path.join(BUILD, 'runs')
 os.makedirs(RUNS, exist_ok=True)
 
-LAYOUTS = [(1, 1), (2, 1), (2, 2), (4, 4), (4, 2), (4, 1), (6, 3), (6, 2), (12, 4), (12, 3), (7, 1), (10, 2), (3, 3), (8, 2), (9, 3)]
+LAYOUTS = [(1, 1), (2, 1), (2, 2), (4, 4), (4, 2), (4, 1), (6, 3), (6, 2), (12, 4), (12, 3), (7, 1), (10, 2), (3, 3), (8, 2), (9, 3), (8, 4)]
 ROUTINGS = ['NONE', 'NR', 'NLNR']
 POLICIES = ['uniform', 'late', 'early', 'delayreduce', 'starve']
 
